@@ -262,7 +262,97 @@ def check_stratified_levels(ctx: Ctx) -> None:
     ctx.floor("14.5-levels", 6)
 
 
+_OTS = "algos/doe/openturns/_algos/ot_sobol_doe.py"
+
+
+def check_sobol_count(ctx: Ctx) -> None:
+    """14.6: OT_SOBOL_INDICES never returns more than n_samples.
+
+    SobolIndicesExperiment(N) has N(2+d) points when the second-order indices are not computed or d == 2, and N(2+2d)
+    otherwise (OpenTURNS documentation, quoted in the source): N must be floor(n_samples / block) for the block of the
+    case at hand.  The tests compare `dimension` with constants only, so each (option, ordering of d and 2) selects a
+    path; the divisor on that path is compared with the block size with sympy.
+    """
+    import sympy
+
+    from gv.ordering import Unsupported
+    from gv.ordering import executed
+
+    f = ctx.index.method(_OTS, "OTSobolDOE", "generate_samples")
+    con = cname(_OTS, "OTSobolDOE", "generate_samples")
+    exp = [c for c in walk_body(f) if isinstance(c, ast.Call) and last_attr(c) == "SobolIndicesExperiment"]
+    ctx.need(len(exp) == 1 and len(exp[0].args) >= 2 and isinstance(exp[0].args[1], ast.Name), "OTSobolDOE: SobolIndicesExperiment(distribution, size, ...) not found")
+    size = exp[0].args[1].id
+    n_par, d_par = f.args.args[1].arg, f.args.args[2].arg
+    flag_defs = [s_ for s_ in stmts_of(f) if isinstance(s_, ast.Assign) and isinstance(s_.targets[0], ast.Name) and "eval_second_order" in norm_stmt(s_.value)]
+    ctx.need(len(flag_defs) == 1, "OTSobolDOE: the eval_second_order option was not found")
+    flag = flag_defs[0].targets[0].id
+    ctx.ob("14.6-sobol-count", con, len(exp[0].args) >= 3 and dotted(exp[0].args[2]) == flag, "the experiment must be built with the same eval_second_order option as the one the block size is computed from", node=exp[0], stmt="SobolIndicesExperiment(..., eval_second_order)")
+    atoms = {flag: "flag", d_par: "d"}
+    for second in (False, True):
+        for d, dlabel in ((1, "d < 2"), (2, "d = 2"), (3, "d > 2"), (6, "d > 2")):
+            label = f"eval_second_order={second}, {dlabel}"
+            try:
+                path = executed(f.body, atoms, {"flag": 1 if second else 0, "d": d})
+            except Unsupported as e:
+                ctx.ob("14.6-sobol-count", con, False, f"the block-size selection is no longer a comparison of the dimension with constants ({e})", node=f, stmt=label)
+                continue
+            defs = [s_ for s_ in path if isinstance(s_, ast.Assign) and dotted(s_.targets[0]) == size]
+            if not defs:
+                ctx.ob("14.6-sobol-count", con, False, f"no sub-sample size is computed for {label}", node=f, stmt=label)
+                continue
+            v = defs[-1].value
+            quot = None
+            if isinstance(v, ast.Call) and dotted(v.func) == "int" and len(v.args) == 1 and isinstance(v.args[0], ast.BinOp) and isinstance(v.args[0].op, (ast.Div, ast.FloorDiv)):
+                quot = v.args[0]
+            elif isinstance(v, ast.BinOp) and isinstance(v.op, ast.FloorDiv):
+                quot = v
+            if quot is None or dotted(quot.left) != n_par:
+                ctx.ob("14.6-sobol-count", con, False, f"for {label} the sub-sample size `{norm_stmt(v, 60)}` is not floor(n_samples / block): rounding to nearest (or up) returns more samples than requested", node=defs[-1], stmt=label)
+                continue
+            try:
+                got = sympy.sympify(norm_stmt(quot.right), locals={d_par: sympy.Integer(d)})
+            except Exception:  # noqa: BLE001
+                got = None
+            block = 2 + d if (not second or d == 2) else 2 + 2 * d
+            ctx.ob("14.6-sobol-count", con, got == block, f"for {label} (d={d}) the design has {block} points per unit of sub-sample size but n_samples is divided by {got}: the design has more points than requested", node=defs[-1], stmt=label)
+    ctx.floor("14.6-sobol-count", 7)
+
+
+_CD = "algos/doe/custom_doe/custom_doe.py"
+
+
+def check_custom_order(ctx: Ctx) -> None:
+    """14.7: samples given by variable NAME are laid out in the design space's variable order.
+
+    A mapping (or a sequence of mappings) carries no order of its own that means anything: the only conversion to an
+    array that is right for every key order is the design space's convert_dict_to_array.
+    """
+    f = ctx.index.method(_CD, "CustomDOE", "_generate_unit_samples")
+    con = cname(_CD, "CustomDOE", "_generate_unit_samples")
+    ds = f.args.args[1].arg
+    cfg = cfg_of(f)
+    n = 0
+    for s_ in stmts_of(f):
+        if not (isinstance(s_, ast.Assign) and dotted(s_.targets[0]) == "samples"):
+            continue
+        conds = [norm_stmt(cfg.ast[t].test) + ("" if v else " [false]") for t, v in branch_conditions(cfg, cfg.node_of(s_)) if cfg.kind[t] == "test"]
+        by_name = any("Mapping" in c_ and "[false]" not in c_ for c_ in conds) or any("ndarray" in c_ and "isinstance" in c_ for c_ in conds)
+        if not by_name:
+            continue
+        n += 1
+        conv = [c_ for c_ in ast.walk(s_.value) if isinstance(c_, ast.Call) and last_attr(c_) == "convert_dict_to_array" and dotted(c_.func.value) == ds]
+        raw = [c_ for c_ in ast.walk(s_.value) if isinstance(c_, ast.Call) and last_attr(c_) in ("values", "items")]
+        ctx.ob("14.7-variable-order", con, bool(conv) and not raw, "samples keyed by variable name must be converted with design_space.convert_dict_to_array: stacking the dictionary values follows the key order of each dictionary, not the variable order of the design space (components land in the wrong columns, outside their bounds)", node=s_)
+    ctx.floor("14.7-variable-order", 2)
+    ret = [r for r in stmts_of(f) if isinstance(r, ast.Return) and r.value is not None]
+    ok = len(ret) == 1 and any(isinstance(c_, ast.Attribute) and c_.attr == "transform_vect" and dotted(c_.value) == ds for c_ in ast.walk(ret[0].value))
+    ctx.ob("14.7-variable-order", con, ok, "the user's physical samples are mapped to the unit hypercube with the design space's own transform_vect", node=(ret or [f])[0], stmt="unit samples = transform_vect(samples)")
+
+
 def run(ctx: Ctx) -> None:
+    check_sobol_count(ctx)
+    check_custom_order(ctx)
     check_stratified_levels(ctx)
     check_seeds(ctx)
     check_window(ctx)
@@ -283,6 +373,7 @@ _SC = "algos/doe/scipy/scipy_doe.py"
 _PY = "algos/doe/pydoe/pydoe.py"
 _OT = "algos/doe/openturns/openturns.py"
 WITNESSES = [
+    {"name": "sobol-sub-sample-size-rounded", "file": _OTS, "old": "            sub_sample_size = int(n_samples / (dimension + 2))", "new": "            sub_sample_size = round(n_samples / (dimension + 2))", "expect": "14.6"},
     {"name": "composite-centre-point-forgotten", "file": "algos/doe/openturns/_algos/ot_composite_doe.py", "old": "n_levels = int((n_samples - 1) / (2 * dimension + 2**dimension))", "new": "n_levels = int(n_samples / (2 * dimension + 2**dimension))", "expect": "14.5"},
     {"name": "axial-levels-per-direction", "file": "algos/doe/openturns/_algos/ot_axial_doe.py", "old": "n_levels = int((n_samples - 1) / 2 / dimension)", "new": "n_levels = int((n_samples - 1) / dimension)", "expect": "14.5"},
     {"name": "scipy-raw-seed", "file": _SC, "old": "            seed=self._seeder.get_seed(settings[self._SEED]),", "new": "            seed=settings[self._SEED],", "expect": "14.1"},
